@@ -4,10 +4,10 @@ use peginator::*;
 use serde_json::json;
 use verif_core::util::Src;
 
-const TEXT_FRAGS: &[&str] = &["a", "b", "Z", "é", "ß", "ж", "→", "☃", "🙂", " ", "\t", "\n", "\x0C", "\r", "\x0B", "\u{A0}", "\u{2003}", "k", "K", "\u{212A}", "ſ", "İ", "ı", "\u{80}", "\u{7ff}", "\u{800}", "\u{ffff}", "\u{10000}", "\u{10ffff}", "ab", "1x", "", "\0"];
+const TEXT_FRAGS: &[&str] = &["_", "@", "[", "{", "^", "~", "`", "|", "\\", "]", "}", "?", "\x1f", "\x7f", "a", "b", "Z", "é", "ß", "ж", "→", "☃", "🙂", " ", "\t", "\n", "\x0C", "\r", "\x0B", "\u{A0}", "\u{2003}", "k", "K", "\u{212A}", "ſ", "İ", "ı", "\u{80}", "\u{7ff}", "\u{800}", "\u{ffff}", "\u{10000}", "\u{10ffff}", "ab", "1x", "", "\0"];
 const LITS: &[&str] = &["", "a", "ab", "é", "éa", "aé", "🙂", "a🙂b", "→→", "k", "ss", "\u{10ffff}", "b\u{80}", " ", "\n", "Z1", "ж", "☃x"];
-const ILITS: &[&str] = &["", "a", "ab", "k", "ss", "i", "z1", "-", "a-b", "kk", "s"];
-const CHARS: &[char] = &['a', 'b', 'Z', 'k', 's', 'i', '0', ' ', '\n', '\x7f', '\u{80}', 'é', 'ß', 'ж', '→', '☃', '🙂', '\u{7ff}', '\u{800}', '\u{ffff}', '\u{10000}', '\u{10ffff}', '\0', '\u{212A}'];
+const ILITS: &[&str] = &["", "a", "ab", "k", "ss", "i", "z1", "-", "a-b", "kk", "s", "_", "a_b", "[x]", "{", "~~", "@k", "^", "`", "a\\b", "\t"];
+const CHARS: &[char] = &['_', '@', '[', '{', '^', '~', '`', '|', '\\', ']', '}', '\t', 'a', 'b', 'Z', 'k', 's', 'i', '0', ' ', '\n', '\x7f', '\u{80}', 'é', 'ß', 'ж', '→', '☃', '🙂', '\u{7ff}', '\u{800}', '\u{ffff}', '\u{10000}', '\u{10ffff}', '\0', '\u{212A}'];
 
 #[derive(Debug, Clone)]
 pub struct Case {
